@@ -464,13 +464,52 @@ func ops(m *model, k int) (out []struct {
 			}
 			n.Tables = append(n.Tables, keep)
 			nu := &table{Name: "new_u", Cols: append([]col(nil), u.Cols...), Idx: map[string]string{}}
-			body := []string{createSQL(nu, "new_u"), "INSERT INTO `new_u` (`id`, `v`) SELECT `id`, `v` FROM `u`", "DROP TABLE `u`", tail}
+			var cs []string
+			for _, c := range u.Cols {
+				if c.Virtual == "" {
+					cs = append(cs, "`"+c.Name+"`")
+				}
+			}
+			cl := strings.Join(cs, ", ")
+			body := []string{createSQL(nu, "new_u"), "INSERT INTO `new_u` (" + cl + ") SELECT " + cl + " FROM `u`", "DROP TABLE `u`", tail}
 			add(step{Op: extraName, SQL: body, Expect: []expect{{"DS102", "u", []string{"DROP TABLE `u`"}}}}, n)
 		}
-		drop("copy_drop_then_index_instead_of_rename", "CREATE INDEX `new_u_v` ON `new_u` (`v`)",
+		drop("copy_drop_then_index_instead_of_rename", "CREATE INDEX `new_u_id` ON `new_u` (`id`)",
 			&table{Name: "new_u", Cols: append([]col(nil), u.Cols...), Idx: map[string]string{}})
 		drop("copy_drop_then_rename_to_another_name", fmt.Sprintf("ALTER TABLE `new_u` RENAME TO `u_v%d`", k),
 			&table{Name: fmt.Sprintf("u_v%d", k), Cols: append([]col(nil), u.Cols...), Idx: map[string]string{}})
+	}
+	// the four statements of a rebuild of t, but the second one is not the row copy: it drops table u
+	// (or a column of u). Both u (its column) and the rows of t are gone.
+	if u := m.table("u"); u != nil && t != nil && m.table("new_t") == nil && len(t.Idx) == 0 {
+		for _, variant := range []string{"table", "column"} {
+			if variant == "column" && u.col("v") == nil {
+				continue
+			}
+			n := m.clone()
+			want := []expect{{"DS102", "t", []string{"DROP TABLE `t`"}}}
+			mid := "DROP TABLE `u`"
+			if variant == "table" {
+				for i, x := range n.Tables {
+					if x.Name == "u" {
+						n.Tables = append(n.Tables[:i], n.Tables[i+1:]...)
+						break
+					}
+				}
+				want = append(want, expect{"DS102", "u", []string{"DROP TABLE `u`"}})
+			} else {
+				nu := n.table("u")
+				for i, c := range nu.Cols {
+					if c.Name == "v" {
+						nu.Cols = append(nu.Cols[:i], nu.Cols[i+1:]...)
+						break
+					}
+				}
+				mid = "ALTER TABLE `u` DROP COLUMN `v`"
+				want = append(want, expect{"DS103", "v", []string{mid}})
+			}
+			add(step{Op: "rebuild_shape_with_drop_" + variant + "_instead_of_copy", SQL: []string{createSQL(t, "new_t"), mid, "DROP TABLE `t`", "ALTER TABLE `new_t` RENAME TO `t`"}, Expect: want}, n)
+		}
 	}
 	// one of two destructive statements is silenced by a statement-level atlas:nolint directive: the
 	// other one is still an error.
